@@ -63,6 +63,7 @@ def main():
                   "detected_with_replay": any(v["exit"] == 1 and v["with_replay"] > 0 for v in r.values())}
         print(s, json.dumps(res[s]["checks"]), "OK" if res[s]["detected_with_replay"] else "MISSED")
         sys.stdout.flush()
+    sh(f"/venv/bin/python -c \"from harness import common; common.drop_builds_for('{REPO}')\"", cwd=VERIF)
     sh(f"git -C /repo worktree remove --force {REPO}")
     json.dump(res, open(os.path.join(VERIF, "seeded", "regress.json"), "w"), indent=1)
     missed = [s for s, v in res.items() if not v.get("detected_with_replay")]
